@@ -3,6 +3,7 @@
   Refinement of the model's two containers to the declarative spec `Spec.tables`.
 -/
 import PdtModel.Model.Bundle
+import PdtModel.Props.Regex
 import PdtModel.Gen.Consts
 set_option linter.unusedSimpArgs false
 namespace Pdt.C20
@@ -369,5 +370,13 @@ example :
     Spec.tables bs = some [("a".toList, 1), ("b".toList, 2), ("a".toList, 4)] ∧
     (ofBlocks bs).toOption.map iter = some [1, 2, 4] ∧
     (ofBlocks bs).toOption.map (all · "a".toList) = some [1, 4] := by decide
+
+/-! ## `gridName` IS the regex (Props/Regex.lean): group 1 of the first match of the pattern text extracted from
+   store.py, run by the generic engine model of `re`, is `gridName` — for every first cell -/
+theorem gridName_is_name_regex :
+    ∃ r, Regex.Re.parse Gen.bundleNameRegex.toList = some r ∧
+      ∀ (T : Regex.Tables) (s : Str),
+        (Regex.pySearch T r s).bind (fun caps => Regex.groupText s caps 1) = gridName s :=
+  RegexProps.name_pattern_denotes_gridName
 
 end Pdt.C20
